@@ -23,7 +23,7 @@ RULE = (
     "scope trees up to N nodes (inline / spawned children) x per node own logger y/n x trace id "
     "{not given, own, empty string} x name in {'a', '', '100%', '%s', '%(x)s', 'a b'}; at every position (outside before, "
     "inside every node before/after its children, outside after) one call per level {debug, "
-    "info, warning, error} x (message,args) in 5 forms x optional exception; non-trivial = the "
+    "info, warning, error} x (message,args) in 6 forms (incl. an argument whose __str__ raises: never-raises only) x optional exception; non-trivial = the "
     "call is made inside a nested scope, or the name / message needs %-handling"
 )
 ASSUMPTIONS = [
@@ -41,7 +41,16 @@ FORMS = [
     ("MSG %d+%s", (1, "y")),
     ("MSG %(k)s", ({"k": 1},)),
     ("MSG 100% sure", ()),  # no arguments: logging does not format, '%' stays literal
+    ("MSG bad %s", ("<<BADSTR>>",)),  # an argument whose __str__ raises: may be lost, must not raise
 ]
+
+
+class BadStr:
+    def __str__(self) -> str:
+        raise TypeError("cannot render")
+
+    def __repr__(self) -> str:
+        return "BadStr()"
 LEVELS = [("debug", logging.DEBUG), ("info", logging.INFO), ("warning", logging.WARNING), ("error", logging.ERROR)]
 
 _root = logging.getLogger()
@@ -57,6 +66,13 @@ def _node_opts(names, traces=(0, 1, 2)):
 
 def programs(tier: str):
     yield {"nodes": []}
+    for lg in (False, True):
+        yield {"nodes": [{"opt": [lg, 0, "a"], "parent": None, "place": "root"}], "level_switch": True}
+        for place in ("inline", "spawn"):
+            yield {
+                "nodes": [{"opt": [lg, 0, "a"], "parent": None, "place": "root"}, {"opt": [False, 0, "b"], "parent": 0, "place": place}],
+                "level_switch": True,
+            }
     for o in _node_opts(NAMES):
         yield {"nodes": [{"opt": list(o), "parent": None, "place": "root"}]}
     for a in _node_opts(NAMES):
@@ -137,6 +153,8 @@ def execute(program, ch: Chooser) -> Result:  # noqa: C901, PLR0915
                     e0 = len(_cap.errors)
                     exc = LogErr("boom") if with_exc else None
                     raised = None
+                    if args == ("<<BADSTR>>",):
+                        args = (BadStr(),)
                     try:
                         fn = getattr(ctx, f"log_{lname}")
                         if with_exc:
@@ -174,7 +192,13 @@ def execute(program, ch: Chooser) -> Result:  # noqa: C901, PLR0915
             kwargs["trace_id"] = f"trace-n{i}-100%s"
         elif tr == 2:
             kwargs["trace_id"] = ""
-        async with ctx.scope(name, **kwargs):
+        # the logger's level at scope creation is more restrictive than at log time
+        if program.get("level_switch"):
+            _root.setLevel(logging.ERROR)
+        cm = ctx.scope(name, **kwargs)
+        async with cm:
+            if program.get("level_switch"):
+                _root.setLevel(logging.DEBUG)
             log_all(i, "pre")
             for j, n in enumerate(nodes):
                 if n["parent"] == i:
@@ -202,7 +226,10 @@ def execute(program, ch: Chooser) -> Result:  # noqa: C901, PLR0915
         traces_seen: dict[int, set] = {}
         for c in calls:
             i = c["where"]
-            want_text = c["msg"] % (c["args"][0] if len(c["args"]) == 1 and isinstance(c["args"][0], dict) else c["args"]) if c["args"] else c["msg"]
+            if c["args"] and isinstance(c["args"][0], BadStr):
+                want_text = c["msg"]
+            else:
+                want_text = c["msg"] % (c["args"][0] if len(c["args"]) == 1 and isinstance(c["args"][0], dict) else c["args"]) if c["args"] else c["msg"]
             name = nodes[i]["opt"][2] if i is not None else None
             tricky = name is not None and "%" in name
             witness = f"{'scope' if i is not None else 'outside'}/{'pct-name' if tricky else 'plain-name'}/{'args' if c['args'] else 'noargs'}"
@@ -213,6 +240,8 @@ def execute(program, ch: Chooser) -> Result:  # noqa: C901, PLR0915
             if c["raised"]:
                 viols.append(viol("never-raises", witness, "no exception", c["raised"]))
                 continue
+            if c["args"] and isinstance(c["args"][0], BadStr):
+                continue  # format and arguments do not agree: only "never raises" applies
             recs = [r for r in c["records"] if isinstance(r.msg, str) and "MSG" in r.msg]
             if len(recs) != 1:
                 viols.append(viol("exactly-one-record", witness, 1, len(recs), scope_name=name, msg=c["msg"]))
